@@ -45,6 +45,7 @@ def gen_params(rng):
         "n_chrom": rng.choice([1, 2, 3]),
         "chrom_len": 2500,
         "n_var": rng.randint(3, 15),
+        "pos1_prob": 0.15,
         "kinds": ["snv", "snv", "snv", "ins", "del", "mnp"],
         "samples": samples,
         "pedigree": ped,
